@@ -256,10 +256,6 @@ def check(run):
             if g != exp:
                 where = "header" if n < hdr_end else ("block-boundary" if n in ends else ("window" if any(abs(n - k * WIN) <= 16 for k in range(1, 6)) else "inside"))
                 sig = "cut:" + where
-                # (recorded finding, known_findings.txt) a file whose TOP-LEVEL array has indefinite length, cut directly before that
-                # array's closing break: every block is there, the reader reports the regular end (it never reads the outer break)
-                if data[0] == 0x9f and n == len(data) - 1 and g == dg(states[len(blocks)], " EOF"):
-                    sig = "cut:outer-break-missing"
                 if sig not in seen:
                     seen.add(sig)
                     full = G.run_rd(["rd s %s %d" % (data.hex(), n)])[0]
